@@ -32,6 +32,7 @@ import (
 	"net"
 	"net/http"
 	"net/http/httptest"
+	"os"
 	"runtime"
 	"sort"
 	"strings"
@@ -63,6 +64,11 @@ var c16Hangs int32
 func c16PatienceNow() time.Duration {
 	if atomic.LoadInt32(&c16Hangs) > 0 {
 		return c16ShortPatience
+	}
+	if os.Getenv("VERIF_MODE") == "replay" {
+		// replay / shrink runs re-execute inputs that already FAILED: a wait that does not end is the finding being
+		// reproduced, not slowness — keep every candidate of the shrinker short
+		return 10 * time.Second
 	}
 	return c16Patience
 }
@@ -228,7 +234,7 @@ type c16Run struct {
 	mu       sync.Mutex
 	conns    map[int]*c16Conn
 	wantPuts int
-	live     int32 // connections whose CONNECT was accepted and that have not been ended
+	live     int32           // connections whose CONNECT was accepted and that have not been ended
 	clientOf map[int]*Client // broker-side Client of a harness connection, once seen registered
 }
 
@@ -795,7 +801,7 @@ func c16Port(a net.Addr) string {
 
 func c16Gen(r *verifh.Rand, i int) interface{} {
 	in := c16Input{}
-	next := 0      // next fresh connection index
+	next := 0       // next fresh connection index
 	live := []int{} // connected, not dropped
 	cur := -1
 	n := r.Range(3, 14)
